@@ -4,10 +4,11 @@ open Gsu.Proto Gsu.LangBlocks
 
 /-!
 program text (tokens separated by one space):
-  scope ::= ( s <id> <nparams> <param>* <nstmts> (<name> <expr>)* <expr> )
-  expr  ::= n<int> | v<name> | ( + <expr> <expr> ) | ( c <name> <expr> ) | scope
+  scope ::= ( s <id> <nparams> <param>* <nstmts> <stmt>* <expr> )
+  stmt  ::= = <name> <expr> | ? <expr> <name> <expr> | t <name> <expr> <name> | r <expr>
+  expr  ::= n<int> | v<name> | ( + <expr> <expr> ) | ( c <name> <expr> ) | scope | ( F scope )
 ops:
-  run <arg> <scope>   → i<int> | BLOCK | !err      (outermost function called with every parameter = arg)
+  run <arg> <scope>   → i<int> | BLOCK | STR | !err  (outermost function called with every parameter = arg)
   caf <scope>         → <id>:<c|f> …                (per block, pre-order: closure or plain function)
 -/
 
@@ -28,20 +29,47 @@ partial def parseExpr : List String → Option (Expr × List String)
   | "(" :: "s" :: rest => do
     let (s, r) ← parseScope ("(" :: "s" :: rest)
     some (.block s, r)
+  | "(" :: "F" :: rest => do
+    let (s, r) ← parseScope rest
+    match r with
+    | ")" :: r => some (.fn s, r)
+    | _ => none
   | tok :: rest =>
     match tok.toList with
     | 'n' :: cs => (String.ofList cs).toInt?.map fun n => (.num n, rest)
     | 'v' :: cs => (String.ofList cs).toNat?.map fun n => (.var n, rest)
     | _ => none
   | [] => none
-partial def parseStmts : Nat → List String → Option (List (Nat × Expr) × List String)
+partial def parseStmts : Nat → List String → Option (List Stmt × List String)
   | 0, r => some ([], r)
-  | n + 1, x :: r => do
+  | n + 1, "=" :: x :: r => do
     let x ← parseNat x
     let (e, r) ← parseExpr r
     let (rest, r) ← parseStmts n r
-    some ((x, e) :: rest, r)
-  | _, [] => none
+    some (.assign x e :: rest, r)
+  | n + 1, "?" :: r => do
+    let (c, r) ← parseExpr r
+    match r with
+    | x :: r => do
+      let x ← parseNat x
+      let (e, r) ← parseExpr r
+      let (rest, r) ← parseStmts n r
+      some (.ifz c x e :: rest, r)
+    | [] => none
+  | n + 1, "t" :: x :: r => do
+    let x ← parseNat x
+    let (e, r) ← parseExpr r
+    match r with
+    | w :: r => do
+      let w ← parseNat w
+      let (rest, r) ← parseStmts n r
+      some (.tryc x e w :: rest, r)
+    | [] => none
+  | n + 1, "r" :: r => do
+    let (e, r) ← parseExpr r
+    let (rest, r) ← parseStmts n r
+    some (.ret e :: rest, r)
+  | _, _ => none
 partial def parseScope : List String → Option (Scope × List String)
   | "(" :: "s" :: id :: np :: rest => do
     let id ← parseNat id
@@ -68,7 +96,9 @@ def step (l : List String) : String :=
     | some a, some (s, []) =>
       match runTop fuel s a with
       | some (.int i) => "i" ++ toString i
-      | some (.clo _ _) => "BLOCK"
+      | some (.clo _ _ _) => "BLOCK"
+      | some (.fnv _) => "BLOCK"
+      | some .str => "STR"
       | none => "!err"
     | _, _ => "bad-op"
   | "caf" :: toks =>
